@@ -18,7 +18,7 @@ type c16Case struct {
 	At    int    `json:"at,omitempty"`    // restart / rewrite happens after this many cycles
 	Index int    `json:"index,omitempty"` // rewrite: byte index
 	// Cart: 0 = MBC1+RAM (default); 1 = MBC3+TIMER+RAM with the clock running; 2 = the same with the clock halted;
-	// 3 = MBC5+RAM; 4 = ROM only. The transfer is the console's business: the cartridge must not matter.
+	// 3 = MBC5+RAM; 4 = ROM only; 5 = MBC2. The transfer is the console's business: the cartridge must not matter.
 	Cart int `json:"cart,omitempty"`
 }
 
@@ -35,6 +35,8 @@ func c16Machine(ramEn bool, cart ...int) *machine.M {
 		img = machine.Image(0x1b, 1, 2, 4)
 	case 4:
 		img = machine.Image(0x00, 0, 0, 2)
+	case 5:
+		img = machine.Image(0x06, 1, 0, 4) // MBC2 with its built-in 512 x 4 bit RAM
 	}
 	m := machine.New(img, machine.Opts{})
 	if k == 2 {
@@ -212,7 +214,7 @@ func init() {
 			c.R.Assumptions = []string{"completion is observed through FEA0 (00 when OAM is accessible, FF during a transfer)", "ROM-only cartridges are not used here (their A0-BF sources belong to C09/C11)"}
 		}
 		pages := []uint8{0x00, 0x80, 0xc0, 0xdf, 0xe0, 0xf1}
-		explore.Product(c.R, "dma", explore.PartOpt{Bound: "every cycle of every transfer observed", Domain: "pages 00-F1 on an MBC1 cartridge, 8 pages on MBC3 (clock running / halted), MBC5 and ROM-only cartridges; restarts at every cycle; rewrites at every cycle; LCD on, transfer started at every cycle of lines 0, 1, 70, 143, 144, 153; 66,000 (thorough 270,000) quiet cycles after a transfer and from power-on"},
+		explore.Product(c.R, "dma", explore.PartOpt{Bound: "every cycle of every transfer observed", Domain: "pages 00-F1 on an MBC1 cartridge, 9 pages on MBC3 (clock running / halted), MBC5, MBC2 and ROM-only cartridges; restarts at every cycle; rewrites at every cycle; LCD on, transfer started at every cycle of lines 0, 1, 70, 143, 144, 153; 66,000 (thorough 270,000) quiet cycles after a transfer and from power-on"},
 			func(yield func(c16Case) bool) {
 				for p := 0; p <= 0xf1; p++ {
 					for _, en := range []bool{true, false} {
@@ -222,8 +224,8 @@ func init() {
 					}
 				}
 				// other cartridges (the clock of an MBC3 running and halted, MBC5, ROM only)
-				for cart := 1; cart <= 4; cart++ {
-					for _, p := range []uint8{0x00, 0x40, 0x80, 0xa0, 0xc0, 0xdf, 0xe0, 0xf1} {
+				for cart := 1; cart <= 5; cart++ {
+					for _, p := range []uint8{0x00, 0x40, 0x80, 0xa0, 0xa1, 0xc0, 0xdf, 0xe0, 0xf1} {
 						if cart == 4 && p == 0xa0 {
 							continue
 						}
